@@ -11,9 +11,12 @@ pub proof fn lemma_pok_complete(h: int, xx: int, xp: int, y: int)
 {
     broadcast use ring;
     // (h*xp + h*y) * X == h*(xp+y)*X == (h*X)*(xp+y)
+    lemma_distrib(h, xp, y);
     assert(fadd(fmul(h, xp), fmul(h, y)) == fmul(h, fadd(xp, y)));
+    lemma_mul_assoc(h, fadd(xp, y), xx);
     assert(fmul(fmul(h, fadd(xp, y)), xx) == fmul(h, fmul(fadd(xp, y), xx)));
     assert(fmul(fadd(xp, y), xx) == fmul(xx, fadd(xp, y)));
+    lemma_mul_assoc(h, xx, fadd(xp, y));
     assert(fmul(h, fmul(xx, fadd(xp, y))) == fmul(fmul(h, xx), fadd(xp, y)));
     let t = fmul(fmul(h, xx), fadd(xp, y));
     assert(fadd(fneg(t), t) == fadd(t, fneg(t)));
